@@ -354,14 +354,19 @@ impl Accept {
     // Send connection to worker and handle error.
     fn send_connection(&mut self, conn: Conn) -> Result<(), Conn> {
         let next = self.next();
+
+        // Increment counter of WorkerHandle before the connection is handed over: the worker may
+        // pick it up, and even finish it, before this thread runs again, and its decrement must
+        // never come first (the worker would look idle while a connection is still in progress).
+        let hit_limit = !next.inc_counter();
+
         match next.send(conn) {
             Ok(_) => {
-                // Increment counter of WorkerHandle.
-                // Set worker to unavailable with it hit max (Return false).
                 #[cfg(actix_net_verif)]
                 crate::verif::point(crate::verif::Point::SentBeforeInc(next.idx()));
 
-                if !next.inc_counter() {
+                // Set worker to unavailable when it hit max.
+                if hit_limit {
                     let idx = next.idx();
                     self.avail.set_available(idx, false);
                 }
